@@ -34,6 +34,11 @@ def run(ctx):
     r4_load(ctx)
     r5_cli(ctx)
     r6_converters(ctx)
+    # directory invocations convert many files in one process: the n-th conversion must equal a first one (no options object shared
+    # and completed in place, no state kept by the exporter)
+    from . import shared
+    shared.effect_free(ctx, 'R7', [f'{N.GENERIC}.Generic.export', f'{N.EXPORTER}.get_kern_from_ekern'],
+                       'a conversion must not depend on the files converted before it in the same run')
 
 
 # --------------------------------------------------------------------------- R1
